@@ -24,6 +24,8 @@ func runC13(c *Ctx) {
 	c13Close(c)
 	c13Removed(c)
 	c13RemoveIdentity(c)
+	c13ShrinkCopies(c)
+	c13TrackerAlways(c)
 }
 
 // heldAt: a Lock/RLock call on a receiver rendered as lockExpr dominates the point and no
